@@ -685,7 +685,10 @@ class PyFlow:
                                 out.append((q2, (sl == sr) != neg))
                             else:
                                 a, b = sorted([l, r], key=lambda z: repr(z.key()))
-                                out.extend(self._fork(q2, ("eq", a, b), not neg))
+                                kind_ = "is" if isinstance(op, (ast.Is, ast.IsNot)) else "eq"
+                                if isinstance(e.comparators[0], ast.Constant) and isinstance(e.comparators[0].value, bool) or isinstance(e.left, ast.Constant) and isinstance(e.left.value, bool):
+                                    kind_ += "bool"
+                                out.extend(self._fork(q2, (kind_, a, b), not neg))
                     elif isinstance(op, (ast.In, ast.NotIn)):
                         neg = isinstance(op, ast.NotIn)
                         a = single_atom(r)
